@@ -52,7 +52,61 @@ func (ex *Exec) compInit(name, srt string) string {
 		srt = ex.compSort[name]
 	}
 	ex.compSort[name] = srt
-	return ex.sc.global("H0_"+sanitize(name), srt)
+	g := ex.sc.global("H0_"+sanitize(name), srt)
+	ex.entryHeapWF(name, g)
+	return g
+}
+
+// entryHeapWF: the heap at function entry is well-formed - every object
+// reference stored in an object (or array) that exists at entry is nil or refers
+// to an object that exists at entry. Asserted once per reference-valued component
+// of the entry heap (needed for loads under a quantifier, where the per-load
+// assumption of load() is not made).
+func (ex *Exec) entryHeapWF(name, g string) {
+	mark := "entrywf:" + name
+	if _, done := ex.sc.decls[mark]; done {
+		return
+	}
+	isH, isE := strings.HasPrefix(name, "H|"), strings.HasPrefix(name, "E|")
+	if !isH && !isE {
+		return
+	}
+	parts := strings.Split(name, "|")
+	if len(parts) != 3 {
+		return
+	}
+	root, ok := compTypes[parts[1]]
+	if !ok {
+		return
+	}
+	var k int
+	if _, err := fmt.Sscanf(parts[2], "%d", &k); err != nil {
+		return
+	}
+	leaves := flatten(root)
+	if k < 0 || k >= len(leaves) || len(leaves[k].Dims) > 0 {
+		return
+	}
+	l := leaves[k]
+	if l.Kind != lkRef && l.Kind != lkSliceRef {
+		return
+	}
+	if _, isBasic := l.T.(*types.Basic); isBasic {
+		return
+	}
+	ex.sc.decls[mark] = "done"
+	a0 := ex.sc.global("H0_alloc", sArr(sInt, sBool))
+	// pointers may be interior (negative, not subject to this); maps, slices,
+	// channels and functions are nil or objects
+	nilOr := "="
+	if _, isPtr := l.T.Underlying().(*types.Pointer); isPtr {
+		nilOr = "<="
+	}
+	if isH {
+		ex.sc.axiom(fmt.Sprintf("(forall ((p Int)) (! (=> (select %s p) (or (%s (select %s p) 0) (select %s (select %s p)))) :pattern ((select %s p))))", a0, nilOr, g, a0, g, g))
+		return
+	}
+	ex.sc.axiom(fmt.Sprintf("(forall ((p Int) (i Int)) (! (=> (select %s p) (or (%s (select (select %s p) i) 0) (select %s (select (select %s p) i)))) :pattern ((select (select %s p) i))))", a0, nilOr, g, a0, g, g))
 }
 
 func (ex *Exec) setComp(st *State, name, srt, term string) {
